@@ -38,7 +38,7 @@ func execForced(c *core.Case, fc *forcedCase) {
 	defer ctl.Close()
 	mc := &muCase{Kind: "forced-" + fc.Scenario, Rooms: []string{roomNames[0]}, shape: fc.Scenario}
 	addr := mc.Rooms[0]
-	d := &driver{c: c, w: w, mc: mc, base: base, calls: map[string]*call{}, chans: map[string]*muc.Channel{}, pending: map[string]int{}}
+	d := &driver{c: c, w: w, mc: mc, base: base, calls: map[string]*call{}, chans: map[string]*muc.Channel{}, allChans: map[string][]*muc.Channel{}, occ: map[string]string{}, pending: map[string]int{}}
 	do := func(st step) bool {
 		st.Room = 1
 		mc.Steps = append(mc.Steps, st)
